@@ -1,9 +1,14 @@
 /- Model driver for C15: the GENERATED `DayCount.year_frac`. -/
 import FinVerif.Driver.Util
 import FinVerif.Gen.DayCount
+import FinVerif.Model.C15
 open FinVerif FinVerif.Model FinVerif.Driver FinVerif.Gen.DayCount
 
 def showTriple (t : Rat × Rat × Rat) : String := s!"{showRat t.1} {showRat t.2.1} {showRat t.2.2}"
+
+def datesOf : List Int → List PyDate
+  | d :: m :: y :: t => mkDate d m y :: datesOf t
+  | _ => []
 
 /-- `YF dcc d1 m1 y1 d2 m2 y2 has3 d3 m3 y3 freq term` -/
 def step (t : List String) : String :=
@@ -12,6 +17,11 @@ def step (t : List String) : String :=
     | some [dcc, d1, m1, y1, d2, m2, y2, has3, d3, m3, y3, freq, term] =>
       let dt3 := if has3 = 1 then some (mkDate d3 m3 y3) else none
       showExcept showTriple (year_frac (mkDate d1 m1 y1) (mkDate d2 m2 y2) dt3 freq (term = 1) dcc)
+    | _ => "bad-op"
+  | "ICMASUM" :: rest => match ints? rest with
+    | some (freq :: term :: ds) =>
+      -- `ICMASUM freq term d1 m1 y1 d2 m2 y2 …`: sum of the ICMA fractions of the consecutive periods
+      showRat (FinVerif.Model.C15.icmaSum freq (term = 1) (datesOf ds))
     | _ => "bad-op"
   | _ => "bad-op"
 
